@@ -57,6 +57,8 @@ KERNELS = [
     "hex_encode", "b64_encode",
     # include/st_string_priv.h: the case-insensitive comparison of two ranges of equal length
     "compare_ci/3",
+    # include/st_codecs_priv.h: the decoders into a caller buffer
+    "b64_decode_size", "hex_decode", "b64_decode",
 ]
 
 class Unsupported(Exception):
@@ -178,6 +180,8 @@ class Val:
         self.boolean = boolean     # text is a decidable Prop
         self.raw8 = None           # for a value read through `const char *`: the name of the unsigned byte it came from
         self.mem = None            # for a pointer value: the Lean text of the list it points into (None = the function's `mem`)
+        self.memint = None         # (lo, hi) when that list is a table of signed integers
+        self.outpos = False        # the value is an offset into the output buffer
     def p(self):
         return self.text if self.atom else "(" + self.text + ")"
 
@@ -303,6 +307,8 @@ class Translator:
                 if fn is not None and an in fn.arrays:
                     r = Val("0", 0, 0, atom=True)
                     r.mem = "%s_%s" % (fn.name, an)
+                    if an in fn.int_tables:
+                        r.memint = (min(fn.arrays[an]), max(fn.arrays[an]))
                     return [], r, env
                 arr = self.arrays.get(an)
                 if arr is not None:
@@ -369,6 +375,19 @@ class Translator:
                 raise Unsupported("side effects inside ?:")
             av, bv = same_kind(av, bv)
             return l0, Val("if %s then %s else %s" % (cv.text, av.text, bv.text), min(av.lo, bv.lo), max(av.hi, bv.hi), isint=av.isint), env
+        if k == "CXXMemberCallExpr":
+            me = inner(n)[0]
+            obj = inner(me)[0] if me.get("kind") == "MemberExpr" else {}
+            while obj.get("kind") in ("ImplicitCastExpr", "ParenExpr"):
+                obj = inner(obj)[0]
+            var = env.vars.get(obj.get("referencedDecl", {}).get("name")) if obj.get("kind") == "DeclRefExpr" else None
+            if var and var["kind"] == "ststring" and len(inner(n)) == 1:
+                if me.get("name") == "size":
+                    return [], Val(var["size"], 0, (1 << 28) - 1, atom=True), env      # documented limit of ST::string: below 2^28 bytes
+                if me.get("name") == "c_str":
+                    r = Val("0", 0, 0, atom=True); r.mem = var.get("mem")
+                    return [], r, env
+            raise Unsupported("member call " + str(me.get("name")))
         if k == "CallExpr":
             return self.call(fn, n, env)
         if k == "UnaryExprOrTypeTraitExpr" and n.get("name") == "sizeof":
@@ -496,9 +515,12 @@ class Translator:
             sym = {"<": "<", ">": ">", "<=": "≤", ">=": "≥", "==": "=", "!=": "≠"}[op]
             return lines, Val("%s %s %s" % (av.p(), sym, bv.p()), 0, 1, boolean=True), env
         if op == "+":
+            av, bv = to_nat(av), to_nat(bv)
             r = Val("%s + %s" % (av.p(), bv.p()), av.lo + bv.lo, av.hi + bv.hi)
-            r.mem = av.mem or bv.mem
+            r.mem = av.mem or bv.mem; r.memint = av.memint or bv.memint; r.outpos = av.outpos or bv.outpos
             return lines, r, env
+        if op == "-" and av.outpos and bv.outpos and bv.lo == bv.hi == 0:
+            return lines, Val(av.text, av.lo, av.hi, atom=av.atom), env       # distance of an output position from the start of the buffer
         raise Unsupported("pointer " + op)
 
     def ptr_or_int(self, fn, n, env):
@@ -516,11 +538,16 @@ class Translator:
                     return [], lit(self.consts[name]), env
                 raise Unsupported("unknown variable " + name)
             v = env.vars[name]
-            if v["name"] is None and v["kind"] != "out":
+            if v["name"] is None and v["kind"] not in ("out", "outbase"):
                 raise Unsupported("read of uninitialised " + name)
             if v["kind"] == "out":
-                raise Unsupported("value of the output pointer is used")
+                r = Val(curlen(env), 0, 1 << 62, atom=True); r.outpos = True      # the cursor: as many units as were stored
+                return [], r, env
+            if v["kind"] == "outbase":
+                r = Val("0", 0, 0, atom=True); r.outpos = True
+                return [], r, env
             r = Val(v["name"], v["lo"], v["hi"], isint=v["isint"], atom=True)
+            r.outpos = v["kind"] == "pos"
             r.mem = v.get("mem")
             return [], r, env
         if k == "UnaryOperator" and n["opcode"] == "*":
@@ -529,17 +556,27 @@ class Translator:
             return self.read(fn, lines, idx, qt(n), env)
         if k == "ArraySubscriptExpr":
             base, idx = inner(n)
+            key = local_elem(fn, n)
+            if key is not None:
+                if key not in env.vars or env.vars[key]["name"] is None:
+                    raise Unsupported("read of an unset array element " + key)
+                v = env.vars[key]
+                return [], Val(v["name"], v["lo"], v["hi"], isint=v["isint"], atom=True), env
             l1, bv, env = self.expr(fn, base, env)
             l2, iv, env = self.expr(fn, idx, env)
             if iv.lo < 0:
                 raise Unsupported("negative subscript")
-            ix = Val("%s + %s" % (bv.p(), iv.p()), bv.lo + iv.lo, bv.hi + iv.hi); ix.mem = bv.mem
+            iv = to_nat(iv)
+            ix = Val("%s + %s" % (bv.p(), iv.p()), bv.lo + iv.lo, bv.hi + iv.hi); ix.mem = bv.mem; ix.memint = bv.memint
             return self.read(fn, l1 + l2, ix, qt(n), env)
         raise Unsupported("load of " + k)
 
     def read(self, fn, lines, idx, elem_t, env):
         s, b = int_type(elem_t, self.enums)
         t = fn.fresh("t")
+        if idx.memint is not None:
+            lines = lines + ["let %s ← rdI %s %s" % (t, idx.mem, idx.p())]
+            return lines, Val(t, idx.memint[0], idx.memint[1], isint=True, atom=True), env
         lines = lines + ["let %s ← rd%d %s %s" % (t, b, idx.mem or "mem", idx.p())]
         if s:
             if b != 8:
@@ -739,6 +776,33 @@ class Translator:
                     continue
                 if d["kind"] != "VarDecl":
                     raise Unsupported("declaration " + d["kind"])
+                if inner(d) and inner(d)[0]["kind"] == "InitListExpr" and re.search(r"\[\d+\]$", strip_cv(qt(d))):
+                    elems = inner(inner(d)[0])
+                    if "const" in qt(d):
+                        vals = []
+                        for e in elems:
+                            l0, v0, _ = self.expr(fn, e, env)
+                            if l0 or v0.lo != v0.hi:
+                                raise Unsupported("table entry is not a constant")
+                            vals.append(v0.lo)
+                        fn.arrays[d["name"]] = vals; fn.int_tables.add(d["name"])
+                        fn.aux += ["/-- the table `%s` of `%s` -/" % (d["name"], fn.name),
+                                   "def %s_%s : List Int := [%s]" % (fn.name, d["name"], ", ".join(str(b) for b in vals)), ""]
+                        continue
+                    # a small local array: one variable per element, in initialiser order
+                    fn.local_arrays.add(d["name"])
+                    et = strip_cv(qt(d)); et = et[:et.index("[")].strip()
+                    for i, e in enumerate(elems):
+                        l0, v0, env = self.expr(fn, e, env)
+                        lines += [pad + x for x in l0]
+                        v0 = self.convert(v0, et)
+                        it0 = int_type(et, self.enums)
+                        v0 = to_int(v0) if it0[0] else to_nat(v0)
+                        nn = fn.fresh("%s_%d" % (d["name"], i))
+                        env = env.copy()
+                        env.vars["%s[%d]" % (d["name"], i)] = dict(name=nn, lo=v0.lo, hi=v0.hi, isint=it0[0], kind="int", ctype=et)
+                        lines.append(pad + "let %s := %s" % (nn, v0.text))
+                    continue
                 if inner(d) and inner(d)[0]["kind"] == "StringLiteral" and "const" in qt(d) and re.search(r"\[\d+\]$", strip_cv(qt(d))):
                     fn.arrays[d["name"]] = c_string_bytes(inner(d)[0]["value"])      # a constant table local to the function
                     fn.aux += ["/-- the table `%s` of `%s` (with its terminating NUL) -/" % (d["name"], fn.name),
@@ -818,6 +882,15 @@ class Translator:
             if not init:
                 raise Unsupported("uninitialised pointer " + name)
             l, v, env = self.expr(fn, init[0], env)
+            if v.outpos:
+                if name in fn.cursors:
+                    if v.text != curlen(env):
+                        raise Unsupported("an output cursor that does not start at the current end of the output")
+                    env.vars[name] = dict(name=None, lo=0, hi=0, isint=False, kind="out", ctype=t)
+                    return l, env
+                nn = fn.fresh(name)
+                env.vars[name] = dict(name=nn, lo=v.lo, hi=v.hi, isint=False, kind="pos", ctype=t)
+                return l + ["let %s := %s" % (nn, v.text)], env
             nn = fn.fresh(name)
             env.vars[name] = dict(name=nn, lo=v.lo, hi=v.hi, isint=False, kind="src", ctype=t, mem=v.mem)
             return l + ["let %s := %s" % (nn, v.text)], env
@@ -995,6 +1068,7 @@ class Translator:
             return self.cond_tree(fn, inner(n)[0], env, else_k, then_k, ind)
         pad = "  " * ind
         l, v, env = self.cond(fn, n, env)
+        self.cur_fn = fn
         et = self.refine(n, env, True); ee = self.refine(n, env, False)
         return ([pad + x for x in l] + [pad + "if %s then" % v.text] + then_k(et, ind + 1)
                 + [pad + "else"] + else_k(ee, ind + 1))
@@ -1021,9 +1095,12 @@ class Translator:
         if a["kind"] in ("IntegerLiteral", "CharacterLiteral") and b["kind"] == "DeclRefExpr":
             a, b = b, a
             op = {"<": ">", ">": "<", "<=": ">=", ">=": "<=", "==": "==", "!=": "!="}[op]
-        if not (a["kind"] == "DeclRefExpr" and b["kind"] in ("IntegerLiteral", "CharacterLiteral")):
+        if a["kind"] == "ArraySubscriptExpr" and b["kind"] in ("IntegerLiteral", "CharacterLiteral") and local_elem(self.cur_fn, a):
+            name = local_elem(self.cur_fn, a)
+        elif not (a["kind"] == "DeclRefExpr" and b["kind"] in ("IntegerLiteral", "CharacterLiteral")):
             return env
-        name = a["referencedDecl"].get("name")
+        else:
+            name = a["referencedDecl"].get("name")
         if name not in env.vars or env.vars[name]["kind"] != "int":
             return env
         c = int(b["value"])
@@ -1067,7 +1144,8 @@ class Translator:
         fn.loops += 1; fn.needs_fuel = True
         lname = "%s_loop%d" % (fn.name, fn.loops)
         mod = assigned_vars(body, set()) | (assigned_vars(inc, set()) if inc is not None else set()) | assigned_vars(cond, set())
-        live = [(c, v) for c, v in env.vars.items() if v["kind"] != "out" and v["name"] is not None]
+        live = [(c, v) for c, v in env.vars.items() if v["kind"] not in ("out", "outbase", "ststring") and v["name"] is not None]
+        live += [(c + "#size", dict(name=v["size"], isint=False, kind="int")) for c, v in env.vars.items() if v["kind"] == "ststring"]
         carried = [(c, v) for c, v in live if c in mod]
         fixed = [(c, v) for c, v in live if c not in mod]
         flags = [v["nullflag"] for c, v in env.vars.items() if v.get("nullflag")]
@@ -1178,6 +1256,7 @@ class Translator:
         if as_name:
             fn.name = as_name
         fn.loops = 0; fn.needs_fuel = False; fn.loopctx = []; fn.clones = {}; fn.arrays = {}
+        fn.int_tables = set(); fn.local_arrays = set(); fn.cursors = cursor_vars(d)
         # a function with several `const T *` parameters reads several source ranges: one list per parameter
         # (which parameters point into different ranges is stated in SEPARATE_RANGES; by default every `const T *` parameter of a
         # function points into the one range `mem`, as `utf8` and `end` of extract_utf8 do)
@@ -1196,6 +1275,12 @@ class Translator:
                     k = special[pn]["const"]
                     env.vars[pn] = dict(name=str(k), lo=k, hi=k, isint=False, kind="int", ctype=t)
                     params.append(dict(kind="omitted"))
+                    continue
+                if strip_cv(t.replace("&", "")).strip() in ("ST::string", "string") and is_ref(t) and "const" in t:
+                    uses_mem = True
+                    env.vars[pn] = dict(name=None, lo=0, hi=0, isint=False, kind="ststring", ctype=t, size=ln + "_size", mem=None)
+                    binders.append("(%s_size : Nat)" % ln)
+                    params.append(dict(kind="ststring", isint=False))
                     continue
                 if is_pointer(t):
                     const = "const" in pointee(t)
@@ -1217,7 +1302,7 @@ class Translator:
                         if fn.has_out:
                             raise Unsupported("two output pointers")
                         fn.has_out = True
-                        env.vars[pn] = dict(name=None, lo=0, hi=0, isint=False, kind="out", ctype=t)
+                        env.vars[pn] = dict(name=None, lo=0, hi=0, isint=False, kind="out" if (pn in fn.cursors or not fn.cursors) else "outbase", ctype=t)
                         env.out = "([] : List Nat)"
                         params.append(dict(kind="out", isint=False, ref=is_ref(t)))
                         if null_tested(d, pn, self.sigs) or passed_to(d, pn, INLINE):
@@ -1266,6 +1351,32 @@ class Translator:
         src = "/-- `%s` (%s) -/" % (d["name"] if not as_name else "%s, specialised for a call site of %s" % (d["name"], as_name.rsplit("_", 2)[0]), os.path.basename(loc.get("file", loc.get("includedFrom", {}).get("file", "")) or "") or "include/")
         return fn.aux + [src, head] + lines
 
+def curlen(env):
+    """offset of the output cursor = number of units stored so far"""
+    return "0" if env.out == "([] : List Nat)" else env.out + ".length"
+
+def cursor_vars(fdecl):
+    """names of the pointer variables written through (`*x++ = e`, `*x = e`)"""
+    acc = set()
+    def walk(n):
+        if n.get("kind") == "BinaryOperator" and n.get("opcode") == "=":
+            x = inner(n)[0]
+            while x.get("kind") == "ParenExpr":
+                x = inner(x)[0]
+            if x.get("kind") == "UnaryOperator" and x.get("opcode") == "*":
+                y = inner(x)[0]
+                while y.get("kind") in ("ParenExpr", "ImplicitCastExpr"):
+                    y = inner(y)[0]
+                if y.get("kind") == "UnaryOperator" and y.get("opcode") in ("++",):
+                    y = inner(y)[0]
+                if y.get("kind") == "DeclRefExpr":
+                    acc.add(y["referencedDecl"].get("name"))
+        for c in n.get("inner", []):
+            if isinstance(c, dict):
+                walk(c)
+    walk(fdecl)
+    return acc
+
 INLINE = {"append_chars"}
 # functions whose pointer parameters address different source ranges (everything else reads one range)
 SEPARATE_RANGES = {"compare_ci": ("left", "right")}
@@ -1299,6 +1410,19 @@ def null_tested(fdecl, pname, sigs={}):
                 return True
         return any(walk(c) for c in n.get("inner", []) if isinstance(c, dict))
     return walk(fdecl)
+
+def local_elem(fn, n):
+    """`arr[k]` with `arr` a local array of the function and `k` a literal -> the name of the element variable"""
+    if fn is None or n.get("kind") != "ArraySubscriptExpr":
+        return None
+    base, idx = inner(n)
+    while base.get("kind") in ("ImplicitCastExpr", "ParenExpr"):
+        base = inner(base)[0]
+    while idx.get("kind") in ("ImplicitCastExpr", "ParenExpr"):
+        idx = inner(idx)[0]
+    if base.get("kind") == "DeclRefExpr" and base["referencedDecl"].get("name") in fn.local_arrays and idx.get("kind") == "IntegerLiteral":
+        return "%s[%d]" % (base["referencedDecl"]["name"], int(idx["value"]))
+    return None
 
 def callee_name(call):
     c = inner(call)[0]
